@@ -229,8 +229,16 @@ class C03Episode(Episode):
                 got = set(c for (t, c, sg) in ks
                           if sg == ep['s'] and abs(t - t0) <= self.slack(
                               ep, ep['step0']))
+                def fault_dead(c, t):
+                    # killed from outside (an injected fault) before or
+                    # while the signals went round
+                    q = k.procs[c]
+                    return str(q.death_cause).startswith('ext:') and \
+                        q.death_time is not None and q.death_time <= t
                 missing = [c for c in ep['kids_at_t0'] if c not in got
-                           and k.procs[c].orig_parent == pid]
+                           and k.procs[c].orig_parent == pid
+                           and not fault_dead(c, t0 + self.slack(
+                               ep, ep['step0']))]
                 if missing and not ep['zombie_at_t0']:
                     at_once = p.death_time is not None and \
                         p.death_time <= t0 + self.slack(ep, ep['step0'])
@@ -253,7 +261,11 @@ class C03Episode(Episode):
                 # deeper descendants are not claimed (circus misses them:
                 # Process.send_signal_child only looks at direct children)
                 missing = [c for c in ep.get('kids_at_kill', [])
-                           if c not in gotk and k.procs[c].orig_parent == pid]
+                           if c not in gotk and k.procs[c].orig_parent == pid
+                           and not (str(k.procs[c].death_cause).startswith(
+                               'ext:') and k.procs[c].death_time is not None
+                               and k.procs[c].death_time <= kills[0][0] +
+                               POLL)]
                 if missing and not parent_gone:
                     self.viol('final_sigkill_not_sent_to_children',
                               'pid %d got the final SIGKILL, its live '
@@ -317,6 +329,25 @@ class C03(Prop):
         ops = gen.gen_history(rng, cfg, n, self.REQS, self.WEIGHTS,
                               death_p=0.15, fault_p=0.4,
                               second_req_kinds=['kill', 'stop', 'decr'])
+        if kids:
+            # children of the workers die too, also in the middle of a
+            # round of signals
+            out = []
+            nw = len(cfg['watchers'])
+            for op in ops:
+                if op['op'] == 'req' and op['cmd'] in (
+                        'stop', 'restart', 'kill', 'decr', 'reload') and \
+                        rng.random() < 0.25:
+                    out.append({'op': 'die', 'w': rng.randrange(nw)
+                                if op.get('w') is None else op['w'],
+                                'j': rng.randrange(3),
+                                'child': rng.randrange(2), 'how': 'kill',
+                                'place': rng.choice([
+                                    {'calls': rng.randrange(1, 12)},
+                                    {'calls': rng.randrange(1, 40)},
+                                    {'dt': rng.choice([0.01, 0.1, 0.3])}])})
+                out.append(op)
+            ops = out
         for op in ops:
             if op['op'] == 'req' and op['cmd'] == 'set' and \
                     rng.random() < 0.4:
